@@ -52,6 +52,26 @@ CHECKS = {
             dict(harness="C11_Expand"),
         ],
     },
+    "C12": {
+        "quick": [
+            dict(harness="C12_K1L2", cover=["match", "nomatch", "malformed"], bounds="every 1-symbol pattern over {a b * ? [ ] ! ^ - \\ . newline + ( ) | { } $} x subjects of 2 symbolic bytes (+ optional é at any position) x 4 modes"),
+            dict(harness="C12_K2L2", cover=["match", "nomatch", "malformed"], bounds="every 2-symbol pattern over the 12-symbol alphabet x subjects of 2 symbolic bytes (+ optional é) x 4 modes"),
+            dict(harness="C12_K3L2", cover=["match", "nomatch", "malformed"], bounds="every 3-symbol pattern x subjects of 2 symbolic bytes x 4 modes"),
+            dict(harness="C12_K5L2", cover=["match", "nomatch", "malformed"], bounds="every 5-symbol pattern over {[ a * ] .} x subjects of 2 symbolic bytes x 4 modes"),
+            dict(harness="C12_Class", bounds="9 bracket patterns with [:alpha:], ranges, escapes x subjects of 2 symbolic bytes (+ optional é) x 4 modes"),
+            dict(harness="C12_Two", bounds="two patterns (2 and 1 symbols over {a b * ?}) x subjects of 2 symbolic bytes; Prefix|Suffix"),
+        ],
+        "thorough": [
+            dict(harness="C12_K1L2", cover=["match", "nomatch", "malformed"]),
+            dict(harness="C12_K2L2", cover=["match", "nomatch", "malformed"]),
+            dict(harness="C12_K3L2", cover=["match", "nomatch", "malformed"]),
+            dict(harness="C12_K3L3", cover=["match", "nomatch", "malformed"], bounds="every 3-symbol pattern x subjects of 3 symbolic bytes x 4 modes"),
+            dict(harness="C12_K4L3", cover=["match", "nomatch", "malformed"], bounds="every 4-symbol pattern over {a b * ? [ ] ! - \\} x subjects of 3 symbolic bytes x 4 modes"),
+            dict(harness="C12_K5L2", cover=["match", "nomatch", "malformed"]),
+            dict(harness="C12_Class"),
+            dict(harness="C12_Two"),
+        ],
+    },
     "C13": {
         "quick": [
             dict(harness="C13_Table", cover=["fail", "assign", "assign-positional"], bounds="8 table operators x {unset,null,non-null} x {variable, positional} x {unquoted, double-quoted} x nounset on/off; value 2 symbolic bytes, word 0..2 symbolic bytes followed by a nested ${q=}"),
@@ -139,6 +159,8 @@ META = {
                 note="inputs longer than the bounds, code points outside D and the std decoders behind string/[]byte/io.Reader sources (smoke-tested concretely) are outside the claim; goroutines run under the deterministic baton schedule plus a drain phase after return"),
     "C11": dict(text="Eval agrees with a C reference evaluator (precedence, associativity, laziness, effects on a map store, faults) for every 64-bit value of the symbolic operands on all shapes within the bounds; value obligations are discharged as identical terms or by z3. " + BOUNDED,
                 note="reference evaluator applies Go's own * / % << >> (the ALU is the spec); C-undefined cases (MinInt64/-1, shift count >= 64, unsequenced modify+access) are excluded by assumption; strconv.Itoa/ParseInt of a symbolic integer are modelled as an exact decimal round trip; known finding KF-C11-eager-operands"),
+    "C12": dict(text="Match agrees with a direct backtracking matcher for shell pattern notation in all four removal modes for every byte value of the symbolic subject, on every pattern of the enumerated alphabets; malformed patterns give an error. " + BOUNDED,
+                note="patterns are engine-enumerated (regexp.Compile needs a concrete source; its errors are the real ones); matching a symbolic subject uses gosx's regexp model (leftmost-first backtracking over regexp/syntax), validated against the real regexp package by setup (-selftest-regex) ; [:alpha:] is read in the C locale; collating symbols / equivalence classes are not modelled"),
     "C13": dict(text="Expand of directly built ParamExp nodes agrees with the POSIX operator table (value, default, assignment, error, alternative; colon forms; w expanded only when used; positional/special read-only; nounset; $@/$*/$#; ${#p} in characters; % %% # ## against a backtracking matcher) for every value of the symbolic bytes on every cell of the enumerated product. " + BOUNDED,
                 note="values/words are at most 2-3 symbolic ASCII bytes; unquoted cells assume no default-IFS byte in value/word (splitting is C14); pattern removal uses concrete 9 patterns without brackets and values over {a,b} (regexp runs natively on concretised strings)"),
     "C14": dict(text="Expand in default mode (NoGlob) of words built from quoted/unquoted segments of symbolic bytes, with symbolic IFS, yields exactly the fields of a reference splitter written from the statement (cut at unquoted IFS bytes, drop empty unquoted fields). " + BOUNDED,
